@@ -11,7 +11,7 @@ import itertools
 import re
 
 from .. import contracts, qast
-from ..common import rng_for
+from ..common import from_us, rng_for
 from ..core import Violation
 from ..gen import BASE_US, gen_query
 from ..model import MPoint
@@ -191,6 +191,66 @@ class Evaluator:
             res.count("expr.nonconstant")
 
 
+KEYS = [
+    "k", "K", "k_", "_k", "__k", "k ", " k", "k.j", "k-j", "kj", "0", "", "\u00e9", "k\n",
+    # reserved words and their underscore spellings, names of the query object's own methods and attributes
+    "class", "class_", "from", "from_", "in", "in_", "pass_", "None", "none", "_none",
+    "map", "test", "exists", "noop", "matches", "search", "is_hashable", "_hash", "_path", "_point_attr", "point_attr",
+    "tags", "fields", "time", "measurement", "t_k", "f_k", "__class__", "__getitem__",
+]
+
+
+def key_addressing_pass(res):
+    """A key in a query path names exactly that key.  Universe: one point per key of KEYS carrying only that key (as a
+    tag and as a field); for every key K, queries on K - spelled with item access, and with attribute access where
+    Python allows it (K an identifier that is not an attribute of the query object) - must be true on the point of K
+    and on no other point."""
+    from tinyflux import FieldQuery, Point, TagQuery
+
+    pts = [(K, Point(time=from_us(T0), tags={K: "v"}, fields={K: 1})) for K in KEYS]
+    for K in KEYS:
+        spellings = [("item", lambda Q, K=K: Q()[K])]
+        if K.isidentifier() and K not in dir(TagQuery()):
+            spellings.append(("attr", lambda Q, K=K: getattr(Q(), K)))
+            res.count("key_addressing.attribute_spellings")
+        for sp, mk in spellings:
+            forms = [
+                ("tag==", lambda: mk(TagQuery) == "v", True), ("tag!=", lambda: mk(TagQuery) != "zz", True),
+                ("tag.exists", lambda: mk(TagQuery).exists(), True), ("tag.matches", lambda: mk(TagQuery).matches("v"), True),
+                ("tag.search", lambda: mk(TagQuery).search("v"), True), ("tag.test", lambda: mk(TagQuery).test(_is_v), True),
+                ("tag.map", lambda: mk(TagQuery).map(str.upper) == "V", True),
+                ("field==", lambda: mk(FieldQuery) == 1, True), ("field>=", lambda: mk(FieldQuery) >= 1, True),
+                ("field.exists", lambda: mk(FieldQuery).exists(), True),
+                ("~tag==", lambda: ~(mk(TagQuery) == "v"), False), ("~field.exists", lambda: ~mk(FieldQuery).exists(), False),
+                ("tag==&field==", lambda: (mk(TagQuery) == "v") & (mk(FieldQuery) == 1), True),
+            ]
+            for name, build, on_own in forms:
+                try:
+                    q = build()
+                except Exception as e:
+                    res.violate(Violation("C09", "query-construction-raises", {"key": K, "spelling": sp, "form": name, "exc": f"{type(e).__name__}: {e}"}, replay={"key": K, "spelling": sp, "form": name}))
+                    continue
+                for K2, pt in pts:
+                    want = on_own if K2 == K else (not on_own)
+                    res.evaluations += 1
+                    res.count("key_addressing.evaluations")
+                    try:
+                        got = q(pt)
+                    except Exception as e:
+                        got = f"raised {type(e).__name__}: {e}"
+                    if got is not want and not (isinstance(got, bool) and got == want):
+                        res.violate(Violation(
+                            "C09", "key-in-query-addresses-another-key",
+                            {"key_in_query": K, "spelling": sp, "form": name, "point_has_only_key": K2, "expected": want, "observed": repr(got)},
+                            replay={"key": K, "spelling": sp, "form": name, "point_key": K2}, features={"form": name}))
+                        break
+    res.seen(("key-addressing", len(KEYS)))
+
+
+def _is_v(x):
+    return x == "v"
+
+
 def run(res, tier, seed, shard, nshards):
     contracts.install(compound=True)
     res.rule = (
@@ -269,6 +329,9 @@ def run(res, tier, seed, shard, nshards):
         if i == 5:
             res.sample({"random": qast.show(q)})
 
+    if shard == (1 % nshards):
+        key_addressing_pass(res)
+
     for b in contracts.drain(res):
         res.violate(Violation("C09", "compound-is-not-boolean-operator", {"what": b}, replay={"what": list(b)}))
     res.require("contract_evals.compound_call")
@@ -281,7 +344,8 @@ def run(res, tier, seed, shard, nshards):
 
 
 def finalize(res, tier):
-    pass
+    res.require("key_addressing.evaluations")
+    res.require("key_addressing.attribute_spellings")
 
 
 def replay(res, rep):
